@@ -349,6 +349,7 @@ func StatementProcessor(gs *gripql.GraphStatement, db gdbi.GraphInterface, ps *p
 			if _, ok := aggs[a.Name]; ok {
 				return nil, fmt.Errorf("duplicate aggregation name '%s' found; all aggregations must have a unique name", a.Name)
 			}
+			aggs[a.Name] = nil
 		}
 		ps.LastType = gdbi.AggregationData
 		return &aggregate{stmt.Aggregate.Aggregations}, nil
